@@ -216,7 +216,8 @@ def check_clean_stop(case, res, out):
     # runs, are required to leave nothing behind.
     pathos = par_stage(case['desc']).get('backend', 't') == 'mp'
     for ep, (rec, ev) in enumerate(zip(res['epochs'], parrun.split_epochs(res['log']))):
-        stopped = any(e[2] == 'stop' for e in ev) and \
+        # ... and 'throw' is not GeneratorExit: the adapters' terminate() does not run
+        stopped = any(e[2] == 'stop' and e[3] != 'throw' for e in ev) and \
             not (pathos and any(e[2] == 'raise' for e in ev))
         if rec['alive_at_return'] and not pathos:
             out['violations'].append(viol(
